@@ -139,6 +139,8 @@ func bstrMapHasTaggedKey(b []byte, off int) bool {
 func acceptedWithTaggedLabel(kind string, data []byte) bool {
 	off := 0
 	switch kind {
+	case "key":
+		return mapHasTaggedKey(data, 0)
 	case "ph":
 		return bstrMapHasTaggedKey(data, 0)
 	case "uh":
